@@ -4,6 +4,10 @@ import json, os, sys
 ROOT = os.path.dirname(os.path.dirname(os.path.abspath(__file__)))
 sys.path.insert(0, os.path.join(ROOT, "tools"))
 import manifest_table as mt
+import props
+for _pid, _P in props.REGISTRY.items():
+    if getattr(_P, 'manifest', None):
+        mt.CLAIMED[_pid] = _P.manifest
 ids = [json.loads(l)["id"] for l in open(os.path.join(ROOT, "properties.jsonl"))]
 checks = []
 for pid in ids:
